@@ -1,25 +1,26 @@
 #!/bin/bash
 # usage: tools/confirm_seeded.sh <seeded dir> [pkg ...]
-# confirms a seeded change: builds, the demo fails with the patch and passes without it, and the listed
-# packages' baseline tests still pass with the patch. /repo is restored afterwards.
+# confirms a seeded change on a scratch worktree of /repo: builds, the demo fails with the patch and passes
+# without it, and the listed packages' baseline tests still pass with the patch. The worktree is removed.
 set -u
 D=$1; shift
-PK=${@:-./d2oracle/ ./d2compiler/ ./d2format/ ./d2ir/ ./d2parser/ ./d2graph/ ./d2lsp/ ./d2exporter/}
+PK=${@:-./d2oracle/ ./d2compiler/ ./d2format/ ./d2ir/ ./d2parser/ ./d2graph/ ./d2lsp/ ./d2exporter/ ./d2ast/}
 export GOFLAGS=-mod=mod GOPROXY=off
-cd /repo || exit 2
-if ! git diff --quiet || [ -n "$(git status --porcelain)" ]; then echo "/repo not clean"; exit 2; fi
+WT=/tmp/wt-confirm-$$
+git -C /repo worktree add -q --detach $WT HEAD || exit 2
+trap 'git -C /repo worktree remove --force '$WT' 2>/dev/null' EXIT
+cd $WT
 pkgdir=$(python3 -c "import json;print(json.load(open('$D/meta.json')).get('demo_package_dir',''))")
 demo=$(ls $D/*_test.go 2>/dev/null | head -1)
-restore() { git -C /repo checkout -- . ; [ -n "$demo" ] && rm -f /repo/$pkgdir/zz_seeded_demo_test.go; }
-trap restore EXIT
 if [ -n "$demo" ] && [ -n "$pkgdir" ]; then
-  cp $demo /repo/$pkgdir/zz_seeded_demo_test.go
-  go test -vet=off -count=1 -run 'Seeded' ./$pkgdir/ > /tmp/confirm_un.log 2>&1; echo "demo on unchanged tree: rc=$? (want 0)"
+  cp $demo $WT/$pkgdir/zz_seeded_demo_test.go
+  go test -vet=off -count=1 -run 'Seeded' ./$pkgdir/ > /tmp/confirm_un.$$.log 2>&1; echo "demo on unchanged tree: rc=$? (want 0)"
 fi
 git apply $D/patch.diff || { echo "patch does not apply"; exit 2; }
 go build ./... || { echo "BUILD FAILS"; exit 1; }
 if [ -n "$demo" ] && [ -n "$pkgdir" ]; then
-  go test -vet=off -count=1 -run 'Seeded' ./$pkgdir/ > /tmp/confirm_p.log 2>&1; echo "demo with patch: rc=$? (want 1)"; grep -m3 -E "^\s+\S+_test.go:[0-9]+:" /tmp/confirm_p.log | cut -c1-300
-  rm -f /repo/$pkgdir/zz_seeded_demo_test.go
+  go test -vet=off -count=1 -run 'Seeded' ./$pkgdir/ > /tmp/confirm_p.$$.log 2>&1; echo "demo with patch: rc=$? (want 1)"; grep -m3 -E "^\s+\S+_test.go:[0-9]+:" /tmp/confirm_p.$$.log | cut -c1-300
+  rm -f $WT/$pkgdir/zz_seeded_demo_test.go
 fi
-python3 /verif/tools/baseline.py $PK 2>&1 | tail -4
+VERIF_BASELINE_REPO=$WT python3 /verif/tools/baseline.py $PK 2>&1 | tail -4
+rm -f /tmp/confirm_un.$$.log /tmp/confirm_p.$$.log
